@@ -101,6 +101,18 @@ def check(scn, H, view=None):
                     len(out) == n_out and \
                     'simultaneously applicable' in seg['exc'][1]:
                 viol('conflict-raised-without-conflict', exception=seg['exc'])
+            elif seg['exc'] is not None and not conflict_seen and \
+                    len(out) == n_out and seg['exc'][0] in (
+                        'TypeError', 'AttributeError', 'KeyError',
+                        'IndexError', 'NameError', 'UnboundLocalError'):
+                # a legal proposal must be applied, not die inside the
+                # library: the last instant's proposals were arbitrated
+                # without conflict above
+                cs = calls.get((ep['index'], last_k), [])
+                viol(f"applying-duty-raises/{seg['exc'][0]}",
+                     message=seg['exc'][1], instant=last_k,
+                     proposals=[c.get('p') for c in cs],
+                     proposal_types=[c.get('ptype') for c in cs])
     return out, st
 
 
